@@ -2,23 +2,81 @@
 import json
 import os
 
+import glob
+import re
+import shutil
+
+import anf2coq
+import rustdbg
 import semcheck
 import semrun
 import vlib
 from vlib import Broken
 
 
+def anf_stage(run, srcs, wits, broken):
+    """the model of anf.rs (C09/Anf.v, about which the order theorem is proved) against the A-normal form the compiler built,
+    function by function; and the order of operations of the real A-normal form against the lifted source (C09/Order.v)"""
+    st = {"programs": 0, "functions": 0, "model_equals_real_anf": 0, "real_anf_keeps_source_order": 0, "lets_bound_by_temporaries": 0}
+    root, paths = semrun.write_programs("c09anf", srcs)
+    corpus = sorted(glob.glob(os.path.join(vlib.REPO, "crates/compiler/src/tests/pipeline/*/main.gom")))
+    paths = paths + corpus
+    srcs = list(srcs) + [open(p, encoding="utf-8").read() for p in corpus]
+    res = vlib.run_harness("compile", [{"path": p, "dumps": ["lift_dbg", "anf_dbg"], "timeout_ms": 20000} for p in paths], shards=vlib.NCPU)
+    cases = []  # (program index, function name, term)
+    for i, r in enumerate(res):
+        if not r.get("ok"):
+            continue
+        st["programs"] += 1
+        try:
+            fs = anf2coq.functions(rustdbg.parse(r["dumps"]["lift_dbg"]), rustdbg.parse(r["dumps"]["anf_dbg"]))
+        except (anf2coq.Conv, KeyError, IndexError) as e:
+            broken.append(Broken("correspondence", "C09 anf model: the lifted tree / A-normal form has a shape the translator cannot read: %r" % (e,)))
+            continue
+        for nm, b, n0, a in fs:
+            cases.append((i, nm, "corr %s %d %s" % (b, n0, a)))
+            st["lets_bound_by_temporaries"] += a.count("(ALet [116;")
+    st["functions"] = len(cases)
+    per = 60
+    texts = ["From Goml Require Import Common.Base C09.Anf C09.Order C09.Eqb.\nOpen Scope N_scope.\nEval vm_compute in [%s].\n" % "; ".join(c for _, _, c in cases[k : k + per]) for k in range(0, len(cases), per)]
+    flat = []
+    for o in vlib.coq_eval_many("c09anf", texts, timeout=1500):
+        m = re.search(r"=\s*\[(.*)\]\s*:\s*list \(bool \* bool\)", o, re.S)
+        if not m:
+            raise Broken("coq-output", o[-500:])
+        flat += [(a == "true", b == "true") for a, b in re.findall(r"\(\s*(true|false)\s*,\s*(true|false)\s*\)", m.group(1))]
+    if len(flat) != len(cases):
+        raise Broken("coq-output", "C09 anf: %d results for %d cases" % (len(flat), len(cases)))
+    drift = None
+    for (i, nm, _), (same, order) in zip(cases, flat):
+        st["model_equals_real_anf"] += same
+        st["real_anf_keeps_source_order"] += order
+        if not order:
+            wits.append({"kind": "the A-normal form of function %s does not perform the operations of the lifted source exactly once, in left-to-right order, inside the same branches" % nm, "program": srcs[i], "function": nm})
+        elif not same and drift is None:
+            drift = (nm, srcs[i])
+    if drift and not any("A-normal form" in w["kind"] for w in wits):
+        broken.append(Broken("correspondence", "C09/Anf.v no longer computes the A-normal form the compiler builds (function %s of: %s); theorem anf_keeps_every_operation_once_in_order is about the model" % (drift[0], drift[1][-600:])))
+    shutil.rmtree(root, ignore_errors=True)
+    return st
+
+
 def check(run):
     run.level = "translation_validation"
     broken = []
     try:
-        vlib.proof_stage(run, "C09", ["C01/Properties.v"], pins="C01")
+        vlib.proof_stage(run, "C09", ["C01/Properties.v", "C09/Properties.v", "C09/Eqb.v"], pins="C09")
     except Broken as b:
         broken.append(b)
     wits, stats, cstats, srcs = [], {}, None, []
     try:
         import genprog
         wits, stats, cstats, srcs = semcheck.run_semantic_check(run, "C09", 160, 4000, with_corpus=False, fail_rate=0.08, depth_choices=(2, 3, 3), extra_sources=genprog.effect_position_programs() + (lambda r_: [genprog.discard_program(r_) for _ in range(50 if run.tier == "quick" else 1000)])(run.sub_rng("C09-discard")))
+    except Broken as b:
+        broken.append(b)
+    astats = {}
+    try:
+        astats = anf_stage(run, srcs, wits, broken)
     except Broken as b:
         broken.append(b)
     for k in run.known:
@@ -35,8 +93,12 @@ def check(run):
         "and a systematic matrix of 9 kinds of unit-typed effect expressions x 10 statement positions (last/middle of a while body, if/else/match branches, last in a function or closure body, let _ =); failing operations (division by zero, out-of-range vec_get) at an 8% rate; the order and multiplicity of output lines and the point of failure of the real Go AST (after ANF, Go generation and DCE) must equal those of the typed source program "
         "under the Coq semantics. The right operand of && / || is kept effect-free (known finding). distinct_nontrivial = agreeing completed runs"
     )
-    run.cov["correspondence"] = {"generated": stats}
-    run.cov["open_obligations"] = ["anf_correct and dce_correct (general theorems about the ANF transformation and the liveness-based DCE) are not proved", "interleavings of `go` are outside the model (one schedule: the spawned call runs at the spawn point)"]
+    run.cov["correspondence"] = {"generated": stats, "anf_model": astats}
+    run.cov["rule"] += (
+        ". ANF stage: for every function of every generated and corpus program the Coq model of anf.rs (C09/Anf.v) is run on the real lifted body with the real start value of the temporary counter "
+        "and must equal, node for node and name for name, the A-normal form the compiler built; independently the operation trace (C09/Order.v) of the real A-normal form must equal that of the lifted source"
+    )
+    run.cov["open_obligations"] = ["the theorem covers order, multiplicity and branch placement of operations under A-normalisation; value flow through the temporaries and the later stages (Go generation, DCE) are covered by translation validation only", "interleavings of `go` are outside the model (one schedule: the spawned call runs at the spawn point)"]
     run.assumptions = ["Sem/Src.v: left-to-right, exactly-once, short-circuit source semantics; Sem/GoSem.v: Go statement semantics"]
     if wits:
         for w in wits[:3]:
